@@ -40,6 +40,27 @@ def c08_text(r):
     return t
 
 
+def delim_text(r):
+    lines = []
+    for _ in range(r.randint(1, 3)):
+        parts = []
+        for _ in range(r.randint(2, 14)):
+            k = r.random()
+            if k < 0.45:
+                parts.append(r.choice(["(", ")", "[", "]", "{", "}", "(", ")", "<", ">"]))
+            elif k < 0.55:
+                parts.append("\\" + r.choice(["(", ")", "{", "}", "\\", "x"]))
+            elif k < 0.8:
+                parts.append(r.choice(["a", "b", "é", "日", "x1", "_"]))
+            else:
+                parts.append(" ")
+        lines.append("".join(parts))
+    t = "\n".join(lines)
+    if r.random() < 0.7:
+        t += "\n"
+    return t
+
+
 def command(r):
     k = r.random()
     reg = r.choice(REGS)
@@ -280,6 +301,21 @@ def run(tier, seed, replay=None):
             for nm in r.sample(["", "a", "b", "z"], r.randint(1, 3)):
                 regs[nm] = r.choice([["span", "RR"], ["span", "é日"], ["span", "x\ny"], ["line", "LL\n"], ["span", " "], ["line", "no-nl"]])
         cases.append({"text": text, "steps": steps, "regs": regs, "cursor": 0})
+    # delimiter family (`%`, `[(` `])` `[{` `]}`): nested and unbalanced brackets, escapes, several lines;
+    # an RNG of its own, so that the main stream above is what it was before the family existed
+    import random as _random
+    dr = _random.Random((seed << 8) ^ 0xD311)
+    for _ in range(300 if tier == "quick" else 6000):
+        text = delim_text(dr)
+        n = len(text)
+        steps = []
+        for _ in range(dr.randint(1, 4)):
+            pos = (["j", "k", "0", "$", "w", "b"][dr.randrange(6)] if dr.random() < 0.3 else "%d|" % dr.randint(1, 24))
+            mot = dr.choice(["%", "%", "%", "[(", "])", "[{", "]}"])
+            op = dr.choice(["", "", "d", "y", "c", "g~", '"ad', "v"])
+            steps.append(pos)
+            steps.append(op + mot + ("X<esc>" if op == "c" else "d" if op == "v" else ""))
+        cases.append({"text": text, "steps": steps, "regs": {}, "cursor": 0})
     if replay:
         rp = json.load(open(replay))
         c = rp.get("case") or {}
@@ -455,6 +491,16 @@ def run(tier, seed, replay=None):
                     xreqs.append({"op": "para_obj", "blank": [all(is_ws(g) for g in ln) for ln in plines],
                                   "cur_line": sum(1 for g in gs[:t["cur"]["value"]] if g == "\n"), "count": int(mm.group(1)), "around": mm.group(2) == "Around"})
                     xmeta.append((c, t, "para_obj", None))
+                mm = re.search(r"motion=Some\(MotionCmd\((\d+), ToDelimMatch\)\) flags=", t["cmd"])
+                if mm:
+                    xreqs.append({"op": "delim_match", "gs": gs, "cur": t["cur"]["value"], "excl": t["cur"]["exclusive"]})
+                    xmeta.append((c, t, "delim_match", None))
+                mm = re.search(r"motion=Some\(MotionCmd\((\d+), To(Paren|Brace|Bracket)\((Forward|Backward)\)\)\) flags=", t["cmd"])
+                if mm:
+                    oc = {"Paren": "()", "Brace": "{}", "Bracket": "[]"}[mm.group(2)]
+                    xreqs.append({"op": "unmatched", "gs": gs, "cur": t["cur"]["value"], "excl": t["cur"]["exclusive"],
+                                  "opener": oc[0], "closer": oc[1], "fwd": mm.group(3) == "Forward"})
+                    xmeta.append((c, t, "unmatched", None))
                 mm = re.search(r"motion=Some\(MotionCmd\((\d+), TextObj\(Word\((Normal|Big), (Inside|Around)\)\)\)\) flags=", t["cmd"])
                 if mm:
                     xreqs.append({"op": "textobj_word", "cls": [4 if g == "\n" else cls(g) for g in gs], "cur": t["cur"]["value"], "big": mm.group(2) == "Big", "around": mm.group(3) == "Around"})
